@@ -330,14 +330,17 @@ func cmdLife() {
 	for i := 0; i < n; i++ {
 		run(nil)
 	}
-	if only < 0 && shard == shards-1 {
-		base, _ := quartzGoroutines()
-		for r := 0; r < 24 && base == 0; r++ {
-			pr := runPoolStop(r, []string{"stop", "cancel"}[r%2], 1+r%3)
-			emit(pr)
-			if pr.Leaked > 0 || !pr.WaitOK {
-				break // a stuck goroutine would be counted again in every later round
-			}
+}
+
+// poolstop <seed> <rounds>: the pool-shutdown rounds in a process of their own (the goroutine profile is
+// process-wide; a leak left by anything else must not hide or fake a verdict)
+func cmdPoolStop() {
+	rounds := argInt(3, 24)
+	for r := 0; r < rounds; r++ {
+		pr := runPoolStop(r, []string{"stop", "cancel"}[r%2], 1+r%3)
+		emit(pr)
+		if pr.Leaked > 0 || !pr.WaitOK {
+			return // a stuck goroutine would be counted again in every later round
 		}
 	}
 }
